@@ -4,6 +4,7 @@ import CgtModel.Props.C03
 import CgtModel.Props.C04
 import CgtModel.Props.C01
 import CgtModel.Lemmas.SpecTwin
+import CgtModel.Props.Formulas
 /-! # C10 — splits only rescale share counts; they never create gain, loss or cost
 
 Statement: a SPLIT/UNSPLIT changes the number of shares held and nothing else: rewriting a ledger in
